@@ -253,6 +253,19 @@ func ParseType(vt reflect.Type, def string) (*Type, error) {
 	return ret, nil
 }
 
+// isTypeKeyword checks if tv is a keyword of any type, including "set" and "list".
+func isTypeKeyword(tv string) bool {
+	if tv == "set" || tv == "list" {
+		return true
+	}
+	for tag := range keywordTab {
+		if isKeyword(Tag(tag), tv) {
+			return true
+		}
+	}
+	return false
+}
+
 // isRecursiveContainer checks if vt contains itself through pointers, slices and maps only.
 // Struct fields are not followed: they have their own descriptors, resolved one by one.
 func isRecursiveContainer(vt reflect.Type, path []reflect.Type) bool {
@@ -552,9 +565,10 @@ func doMatchStruct(vt reflect.Type, def string, i *int, tv *string) (bool, error
 		return false, err
 	}
 
-	/* anonymous struct */
+	/* anonymous struct, there is no name to match: any identifier will do,
+	 * except the keyword of another type, which contradicts the Go type */
 	if tn == "" && vt.Kind() == reflect.Struct {
-		return true, nil
+		return !isTypeKeyword(*tv), nil
 	}
 
 	/* just a simple type with no qualifiers */
